@@ -13,7 +13,7 @@ import simple_parsing
 from simple_parsing.helpers import field as sp_field
 
 
-ENUM_MIXINS = {"Level": str, "Prio": int}
+ENUM_MIXINS = {"Level": str, "Prio": int, "Toggle": str}
 POSTPONED_MODULE = "verif_postponed_ns"
 
 
